@@ -758,9 +758,37 @@ Definition spec_axis (ts : list tspec) (box gap : Q) (out : list Q) : bool :=
 Definition no_content (horizontal : bool) (items : list titem) : bool :=
   forallb (fun it => let '(_, _, _, _, cw, ch) := it in Qeq_bool (if horizontal then cw else ch) 0) items.
 
+(* css-grid 12.7.1 "find the size of an fr" for tracks WITH content (reference written from the specification):
+   leftover = space - base sizes of the non-flexible tracks; hypothetical size = leftover / max(1, sum of the flexible
+   factors); if that size times a flexible track's factor is less than the track's base size, RESTART treating all such
+   tracks as inflexible.  Then every fr track is max(base, size * factor). *)
+Definition track_base (box : Q) (t : track) : Q :=
+  match t with TLen q => q | TPct p => box * p / 100 | TFr _ b => b end.
+Fixpoint css_fr_loop (fuel : nat) (box space : Q) (ts : list track) (infl : list bool) : option Q :=
+  match fuel with
+  | O => None
+  | S f =>
+      let flexible := fun (p : track * bool) => is_fr (fst p) && negb (snd p) in
+      let leftover := space - qsum (map (fun p => if flexible p then 0 else track_base box (fst p)) (combine ts infl)) in
+      let fsum := qsum (map (fun p => if flexible p then fr_factor (fst p) else 0) (combine ts infl)) in
+      let hyp := leftover / Qmax 1 fsum in
+      let infl' := map (fun p => snd p || (is_fr (fst p) &&
+                                  (if Qlt_le_dec (hyp * fr_factor (fst p)) (track_base box (fst p)) then true else false)))
+                       (combine ts infl) in
+      if forallb (fun p => Bool.eqb (fst p) (snd p)) (combine infl infl') then Some hyp
+      else css_fr_loop f box space ts infl'
+  end.
+Definition css_resolve (ts : list track) (box gap : Q) : option (list Q) :=
+  match css_fr_loop (S (length ts)) box (box - (qlen ts - 1) * gap) ts (map (fun _ => false) ts) with
+  | Some hyp => Some (map (fun t => match t with TFr f b => Qmax b (hyp * f) | _ => track_base box t end) ts)
+  | None => None
+  end.
+Definition spec_axis_content (ts : list track) (box gap : Q) (out : list Q) : bool :=
+  match css_resolve ts box gap with Some ref => qlist_close out ref | None => false end.
+
 (* mask: 1 model <> implementation (sizes or rectangles); 2 specification violated
-   (4 columns, 8 rows: only judged when no item has content on that axis; 16 an item rectangle is not
-    the rectangle of its area computed from the implementation's own track sizes) *)
+   (4 columns, 8 rows: css-grid 12.7 track sizes; 16 an item rectangle is not the rectangle of its area computed
+    from the implementation's own track sizes) *)
 Definition tracks_judge (c : tcase) : nat :=
   let tx := to_tracks true (tc_items c) 0 (tc_cols c) in
   let ty := to_tracks false (tc_items c) 0 (tc_rows c) in
@@ -772,8 +800,10 @@ Definition tracks_judge (c : tcase) : nat :=
         all2 (fun r it => rect_qclose r (model_rect mx my (tc_gap_c c) (tc_gap_r c) it)) (tc_irects c) (tc_items c)
     | _, _ => false
     end in
-  let sx := negb (no_content true (tc_items c)) || spec_axis (tc_cols c) (tc_width c) (tc_gap_c c) (tc_icols c) in
-  let sy := negb (no_content false (tc_items c)) || spec_axis (tc_rows c) (tc_height c) (tc_gap_r c) (tc_irows c) in
+  let sx := if no_content true (tc_items c) then spec_axis (tc_cols c) (tc_width c) (tc_gap_c c) (tc_icols c)
+            else spec_axis_content tx (tc_width c) (tc_gap_c c) (tc_icols c) in
+  let sy := if no_content false (tc_items c) then spec_axis (tc_rows c) (tc_height c) (tc_gap_r c) (tc_irows c)
+            else spec_axis_content ty (tc_height c) (tc_gap_r c) (tc_irows c) in
   let sr := all2 (fun r it => rect_qclose r (model_rect (tc_icols c) (tc_irows c) (tc_gap_c c) (tc_gap_r c) it))
                  (tc_irects c) (tc_items c) in
   let clauses := (bit 4 sx + bit 8 sy + bit 16 sr)%nat in
